@@ -40,6 +40,10 @@ Qed.
 Lemma Forall2_length {A B : Type} (R : A -> B -> Prop) l r : Forall2 R l r -> length l = length r.
 Proof. induction 1; cbn [length]; congruence. Qed.
 
+Lemma Forall2_imp {A B : Type} (R S : A -> B -> Prop) l r :
+  (forall x y, R x y -> S x y) -> Forall2 R l r -> Forall2 S l r.
+Proof. intros H. induction 1; constructor; auto. Qed.
+
 (* ================================================================= little-endian bytes *)
 Lemma le_bytes_length n v : length (le_bytes n v) = n.
 Proof. revert v. induction n as [|n IH]; intros v; cbn [le_bytes length]; [reflexivity|]. now rewrite IH. Qed.
@@ -348,12 +352,12 @@ Proof.
     destruct (hex_val a) as [x|] eqn:Ha; [|discriminate].
     destruct (hex_val b) as [y|] eqn:Hb; [|discriminate].
     destruct (hex_decode r) as [l'|] eqn:Hr; [|discriminate].
-    injection H as <-.
+    assert (El : l = 16 * x + y :: l') by congruence. subst l. clear H.
     destruct (hex_val_some _ _ Ha) as (Hx & Hca & Hla).
     destruct (hex_val_some _ _ Hb) as (Hy & Hcb & Hlb).
     destruct (IH l' eq_refl) as (Hlen & Hch & Hby & Hlow).
     split; [cbn [length]; lia|]. split; [constructor; [exact Hca|constructor; [exact Hcb|exact Hch]]|].
-    split; [constructor; [lia|exact Hby]|].
+    split; [apply Forall_cons; [cbv beta; lia|exact Hby]|].
     intros HL. inversion HL as [|? ? La HL']; subst. inversion HL' as [|? ? Lb HL'']; subst.
     rewrite hex_encode_cons.
     replace ((16 * x + y) / 16) with x by lia. replace ((16 * x + y) mod 16) with y by lia.
@@ -413,3 +417,748 @@ Proof.
   rewrite hex_decode_encode by (apply Forall_app; split; [exact Bp|apply Forall_app; split; assumption]).
   apply digest_bytes_noncanon with (n := n); assumption.
 Qed.
+
+(* ================================================================= decimal strings *)
+Lemma is_digit_iff c : is_digit c = true <-> digit_char c.
+Proof. unfold is_digit, digit_char. rewrite andb_true_iff, !Z.leb_le. tauto. Qed.
+
+Lemma is_digit_false c : is_digit c = false -> ~ digit_char c.
+Proof. intros H D. apply is_digit_iff in D. congruence. Qed.
+
+Lemma parse_digits_cons acc c r :
+  parse_digits acc (c :: r) =
+  if is_digit c then
+    (if acc * 10 + (c - 48) <? 2 ^ 64 then parse_digits (acc * 10 + (c - 48)) r else None)
+  else None.
+Proof. reflexivity. Qed.
+
+Lemma parse_digits_app s1 : forall acc s2,
+  parse_digits acc (s1 ++ s2) = match parse_digits acc s1 with Some a => parse_digits a s2 | None => None end.
+Proof.
+  induction s1 as [|c s1 IH]; intros acc s2; [reflexivity|].
+  cbn [app]. rewrite !parse_digits_cons.
+  destruct (is_digit c); [|reflexivity].
+  destruct (acc * 10 + (c - 48) <? 2 ^ 64); [apply IH|reflexivity].
+Qed.
+
+Lemma dec_fold_cons c s acc : dec_fold (c :: s) acc = dec_fold s (acc * 10 + (c - 48)).
+Proof. reflexivity. Qed.
+
+Lemma dec_fold_mono s : Forall digit_char s -> forall acc, 0 <= acc -> acc <= dec_fold s acc.
+Proof.
+  induction 1 as [|c s Hc Hs IH]; intros acc Ha; [cbn; lia|].
+  rewrite dec_fold_cons. unfold digit_char in Hc.
+  specialize (IH (acc * 10 + (c - 48))). lia.
+Qed.
+
+(* the digit loop accepts exactly the digit strings whose value fits in a u64 *)
+Lemma parse_digits_iff s : forall acc v, 0 <= acc < 2 ^ 64 ->
+  (parse_digits acc s = Some v <-> Forall digit_char s /\ dec_fold s acc = v /\ v < 2 ^ 64).
+Proof.
+  induction s as [|c s IH]; intros acc v Ha.
+  - cbn [parse_digits]. unfold dec_fold. cbn [fold_left]. split.
+    + intros H. injection H as <-. split; [constructor|]. lia.
+    + intros (_ & <- & _). reflexivity.
+  - rewrite parse_digits_cons, dec_fold_cons.
+    destruct (is_digit c) eqn:Hd.
+    + apply is_digit_iff in Hd. pose proof Hd as Hd'. unfold digit_char in Hd'.
+      destruct (acc * 10 + (c - 48) <? 2 ^ 64) eqn:Hlt.
+      * apply Z.ltb_lt in Hlt. rewrite IH by lia. split.
+        -- intros (Hf & He & Hv). split; [constructor; assumption|]. split; assumption.
+        -- intros (Hf & He & Hv). inversion Hf; subst. split; [assumption|]. split; [reflexivity|assumption].
+      * apply Z.ltb_ge in Hlt. split; [discriminate|].
+        intros (Hf & He & Hv). inversion Hf as [|? ? _ Hf']; subst.
+        pose proof (dec_fold_mono s Hf' (acc * 10 + (c - 48))). lia.
+    + apply is_digit_false in Hd. split; [discriminate|].
+      intros (Hf & _). inversion Hf; subst. contradiction.
+Qed.
+
+(* u64::from_str: [+] digit+ with value below 2^64, nothing else *)
+Lemma u64_from_str_iff s v :
+  u64_from_str s = Some v <->
+  exists ds, (s = ds \/ s = 43 :: ds) /\ ds <> [] /\ Forall digit_char ds /\ dec_fold ds 0 = v /\ v < 2 ^ 64.
+Proof.
+  assert (H0 : 0 <= 0 < 2 ^ 64) by (rewrite pow2_64; lia).
+  unfold u64_from_str. split.
+  - destruct s as [|c r]; [discriminate|].
+    destruct (c =? 43) eqn:E.
+    + apply Z.eqb_eq in E. subst c. destruct r as [|c' r']; [discriminate|].
+      intros H. apply parse_digits_iff in H; [|exact H0].
+      exists (c' :: r'). split; [right; reflexivity|]. split; [discriminate|exact H].
+    + intros H. apply parse_digits_iff in H; [|exact H0].
+      exists (c :: r). split; [left; reflexivity|]. split; [discriminate|exact H].
+  - intros (ds & Hs & Hne & Hf & He & Hv).
+    destruct Hs as [->| ->].
+    + destruct ds as [|c r]; [contradiction|].
+      inversion Hf as [|? ? Hc _]; subst. unfold digit_char in Hc.
+      destruct (c =? 43) eqn:E; [apply Z.eqb_eq in E; lia|].
+      apply parse_digits_iff; [exact H0|]. split; [exact Hf|]. split; [reflexivity|exact Hv].
+    + change (43 =? 43) with true. cbv iota.
+      destruct ds as [|c r]; [contradiction|].
+      apply parse_digits_iff; [exact H0|]. split; [exact Hf|]. split; [exact He|exact Hv].
+Qed.
+
+Lemma u64_from_str_range s v : u64_from_str s = Some v -> u64_val v.
+Proof.
+  intros H. apply u64_from_str_iff in H. destruct H as (ds & _ & _ & Hf & He & Hv).
+  split; [|exact Hv]. subst v. apply (dec_fold_mono ds Hf 0). lia.
+Qed.
+
+Lemma u64_from_str_empty : u64_from_str [] = None.
+Proof. reflexivity. Qed.
+
+Lemma u64_from_str_digits s : s <> [] -> Forall digit_char s -> u64_from_str s = parse_digits 0 s.
+Proof.
+  intros Hne Hf. destruct s as [|c r]; [contradiction|]. unfold u64_from_str.
+  inversion Hf as [|? ? Hc _]; subst. unfold digit_char in Hc.
+  destruct (c =? 43) eqn:E; [apply Z.eqb_eq in E; lia|reflexivity].
+Qed.
+
+(* a character that is not a digit (other than one leading '+') makes the string invalid *)
+Lemma u64_from_str_invalid_digit s c : In c s -> ~ digit_char c -> c <> 43 -> u64_from_str s = None.
+Proof.
+  intros Hin Hc H43. destruct (u64_from_str s) as [v|] eqn:E; [|reflexivity].
+  apply u64_from_str_iff in E. destruct E as (ds & Hs & _ & Hf & _).
+  rewrite Forall_forall in Hf. destruct Hs as [->| ->].
+  - elim Hc. apply Hf. exact Hin.
+  - destruct Hin as [<-|Hin]; [contradiction|]. elim Hc. apply Hf. exact Hin.
+Qed.
+
+(* printing *)
+Lemma is_digit_dec x : 0 <= x < 10 -> is_digit (48 + x) = true.
+Proof. intros H. apply is_digit_iff. unfold digit_char. lia. Qed.
+
+Lemma dec_digits_rev_digits fuel : forall v, 0 <= v -> Forall digit_char (dec_digits_rev fuel v).
+Proof.
+  induction fuel as [|k IH]; intros v Hv; cbn [dec_digits_rev]; [constructor|].
+  constructor; [unfold digit_char; lia|].
+  destruct (v <? 10); [constructor|]. apply IH. lia.
+Qed.
+
+Lemma dec_digits_rev_nonempty k v : dec_digits_rev (S k) v <> [].
+Proof. cbn [dec_digits_rev]. discriminate. Qed.
+
+Lemma dec_parse fuel : forall v, 0 <= v < 10 ^ Z.of_nat fuel -> v < 2 ^ 64 ->
+  parse_digits 0 (rev (dec_digits_rev fuel v)) = Some v.
+Proof.
+  induction fuel as [|k IH]; intros v Hv H64.
+  - change (10 ^ Z.of_nat 0) with 1 in Hv. assert (v = 0) by lia. subst v. reflexivity.
+  - cbn [dec_digits_rev]. rewrite Nat2Z.inj_succ, Z.pow_succ_r in Hv by lia.
+    destruct (v <? 10) eqn:E.
+    + apply Z.ltb_lt in E. cbn [rev app]. rewrite parse_digits_cons.
+      rewrite is_digit_dec by lia.
+      replace (0 * 10 + (48 + v mod 10 - 48)) with v by lia.
+      destruct (v <? 2 ^ 64) eqn:F; [reflexivity|apply Z.ltb_ge in F; lia].
+    + apply Z.ltb_ge in E. cbn [rev]. rewrite parse_digits_app.
+      rewrite IH by (set (Y := 10 ^ Z.of_nat k) in *; clearbody Y; lia).
+      rewrite parse_digits_cons. rewrite is_digit_dec by lia.
+      replace (v / 10 * 10 + (48 + v mod 10 - 48)) with v by lia.
+      destruct (v <? 2 ^ 64) eqn:F; [reflexivity|apply Z.ltb_ge in F; lia].
+Qed.
+
+Lemma u64_to_string_digits v : 0 <= v -> Forall digit_char (u64_to_string v).
+Proof. intros H. unfold u64_to_string. apply Forall_rev. apply dec_digits_rev_digits. exact H. Qed.
+
+Lemma u64_to_string_nonempty v : u64_to_string v <> [].
+Proof.
+  unfold u64_to_string. intros H. apply (f_equal (@rev Z)) in H. rewrite rev_involutive in H.
+  revert H. apply dec_digits_rev_nonempty.
+Qed.
+
+Lemma u64_parse_to_string v : u64_val v -> parse_digits 0 (u64_to_string v) = Some v.
+Proof.
+  intros [H0 H1]. unfold u64_to_string. apply dec_parse; [|exact H1].
+  rewrite pow2_64 in H1. change (10 ^ Z.of_nat 20) with 100000000000000000000. lia.
+Qed.
+
+(* u64: from_str (to_string v) = v *)
+Lemma u64_string_roundtrip v : u64_val v -> u64_from_str (u64_to_string v) = Some v.
+Proof.
+  intros Hv. rewrite u64_from_str_digits.
+  - apply u64_parse_to_string. exact Hv.
+  - apply u64_to_string_nonempty.
+  - apply u64_to_string_digits. apply Hv.
+Qed.
+
+Lemma parse_zeros n s : parse_digits 0 (repeat 48 n ++ s) = parse_digits 0 s.
+Proof.
+  induction n as [|n IH]; [reflexivity|]. cbn [repeat app]. rewrite parse_digits_cons.
+  change (is_digit 48) with true. change (0 * 10 + (48 - 48)) with 0. change (0 <? 2 ^ 64) with true.
+  exact IH.
+Qed.
+
+Lemma zero_pad20_digits s : Forall digit_char s -> Forall digit_char (zero_pad20 s).
+Proof.
+  intros H. unfold zero_pad20. apply Forall_app. split; [|exact H].
+  apply Forall_forall. intros x Hx. apply repeat_spec in Hx. subst x. unfold digit_char. lia.
+Qed.
+
+Lemma u64_from_str_zero_pad v : u64_val v -> u64_from_str (zero_pad20 (u64_to_string v)) = Some v.
+Proof.
+  intros Hv. rewrite u64_from_str_digits.
+  - unfold zero_pad20. rewrite parse_zeros. apply u64_parse_to_string. exact Hv.
+  - unfold zero_pad20. intros H. apply app_eq_nil in H. destruct H as [_ H]. revert H. apply u64_to_string_nonempty.
+  - apply zero_pad20_digits. apply u64_to_string_digits. apply Hv.
+Qed.
+
+Lemma canon_u64_val v : canon_val v -> u64_val v.
+Proof. unfold canon_val, u64_val. rewrite P_val, pow2_64. lia. Qed.
+
+(* BFieldElement: canonical decimal string round trip, and strictness of from_str *)
+Lemma bfe_dec_roundtrip v : canon_val v -> bfe_from_str (u64_to_string v) = Some v.
+Proof.
+  intros Hv. unfold bfe_from_str. rewrite u64_string_roundtrip by (apply canon_u64_val; exact Hv).
+  apply bfe_try_new_canon. exact Hv.
+Qed.
+
+Lemma bfe_from_str_iff s v :
+  bfe_from_str s = Some v <-> u64_from_str s = Some v /\ v < P.
+Proof.
+  unfold bfe_from_str. destruct (u64_from_str s) as [w|] eqn:E.
+  - pose proof (u64_from_str_range _ _ E) as [Hw0 Hw1]. split.
+    + intros H. apply bfe_try_new_some in H; [|exact Hw0]. destruct H as [-> [_ Hc]]. split; [reflexivity|exact Hc].
+    + intros [H Hp]. injection H as ->. apply bfe_try_new_canon. split; assumption.
+  - split; [discriminate|]. intros [H _]. discriminate.
+Qed.
+
+Lemma bfe_from_str_canon s v : bfe_from_str s = Some v -> canon_val v.
+Proof.
+  intros H. apply bfe_from_str_iff in H. destruct H as [H Hp].
+  apply u64_from_str_range in H. split; [apply H|exact Hp].
+Qed.
+
+(* BFieldElement's Display parses back exactly below p - 256 ... *)
+Lemma bfe_display_roundtrip v : 0 <= v < P - 256 -> bfe_from_str (bfe_display v) = Some v.
+Proof.
+  intros Hv. assert (Hc : canon_val v) by (unfold canon_val; lia).
+  unfold bfe_display. cbv zeta.
+  destruct (P - 256 <=? v) eqn:E1; [apply Z.leb_le in E1; lia|].
+  destruct (v <=? 256) eqn:E2.
+  - apply bfe_dec_roundtrip. exact Hc.
+  - unfold bfe_from_str. rewrite u64_from_str_zero_pad by (apply canon_u64_val; exact Hc).
+    apply bfe_try_new_canon. exact Hc.
+Qed.
+
+(* ... and is rejected for each of the last 256 values (the "-k" form) *)
+Lemma bfe_display_negative v : P - 256 <= v -> bfe_from_str (bfe_display v) = None.
+Proof.
+  intros Hv. unfold bfe_display. cbv zeta.
+  destruct (P - 256 <=? v) eqn:E1; [|apply Z.leb_gt in E1; lia].
+  unfold bfe_from_str, u64_from_str. change (45 =? 43) with false. cbv iota.
+  rewrite parse_digits_cons. change (is_digit 45) with false. reflexivity.
+Qed.
+
+Lemma bfe_display_no_comma v : 0 <= v < P - 256 -> no_comma (bfe_display v).
+Proof.
+  intros Hv. unfold bfe_display. cbv zeta.
+  destruct (P - 256 <=? v) eqn:E1; [apply Z.leb_le in E1; lia|].
+  assert (D : forall s, Forall digit_char s -> no_comma s).
+  { intros s Hs. unfold no_comma. eapply Forall_impl; [|exact Hs]. unfold digit_char. intros a Ha. lia. }
+  destruct (v <=? 256); apply D.
+  - apply u64_to_string_digits. lia.
+  - apply zero_pad20_digits. apply u64_to_string_digits. lia.
+Qed.
+
+Lemma digits_no_comma s : Forall digit_char s -> no_comma s.
+Proof. intros Hs. unfold no_comma. eapply Forall_impl; [|exact Hs]. unfold digit_char. intros a Ha. lia. Qed.
+
+(* ================================================================= split / join, Digest Display and FromStr *)
+Lemma split_on_no_comma s : no_comma s -> split_on 44 s = [s].
+Proof.
+  induction 1 as [|x s Hx Hs IH]; [reflexivity|]. cbn [split_on].
+  destruct (x =? 44) eqn:E; [apply Z.eqb_eq in E; contradiction|]. now rewrite IH.
+Qed.
+
+Lemma split_on_app s r : no_comma s -> split_on 44 (s ++ 44 :: r) = s :: split_on 44 r.
+Proof.
+  induction 1 as [|x s Hx Hs IH].
+  - cbn [app split_on]. change (44 =? 44) with true. reflexivity.
+  - cbn [app split_on]. destruct (x =? 44) eqn:E; [apply Z.eqb_eq in E; contradiction|]. now rewrite IH.
+Qed.
+
+Lemma join_comma_cons2 x y r : join_comma (x :: y :: r) = x ++ 44 :: join_comma (y :: r).
+Proof. reflexivity. Qed.
+
+Lemma split_join l : l <> [] -> Forall no_comma l -> split_on 44 (join_comma l) = l.
+Proof.
+  induction l as [|x l IH]; intros Hne Hf; [contradiction|].
+  inversion Hf as [|? ? Hx Hl]; subst.
+  destruct l as [|y l].
+  - cbn [join_comma]. apply split_on_no_comma. exact Hx.
+  - rewrite join_comma_cons2, split_on_app by exact Hx. rewrite IH; [reflexivity|discriminate|exact Hl].
+Qed.
+
+Lemma split_on_nonempty c s : split_on c s <> [].
+Proof.
+  induction s as [|x s IH]; cbn [split_on]; [discriminate|].
+  destruct (x =? c); [discriminate|]. destruct (split_on c s); discriminate.
+Qed.
+
+Section Printer.
+  (* any element printer whose output has no comma and parses back to the element *)
+  Variable pr : Z -> list Z.
+  Variable Q : Z -> Prop.
+  Hypothesis pr_ok : forall v, Q v -> no_comma (pr v) /\ bfe_from_str (pr v) = Some v.
+
+  Lemma digest_string_roundtrip_with d :
+    length d = 5%nat -> Forall Q d -> digest_from_str (digest_to_string_with pr d) = Some d.
+  Proof.
+    intros Hl Hd. unfold digest_from_str, digest_to_string_with.
+    rewrite split_join.
+    - rewrite map_opt_map_some.
+      + rewrite Hl. reflexivity.
+      + intros v Hv. rewrite Forall_forall in Hd. apply pr_ok. apply Hd. exact Hv.
+    - destruct d; [discriminate|]. discriminate.
+    - apply Forall_forall. intros s Hs. apply in_map_iff in Hs. destruct Hs as (v & <- & Hv).
+      rewrite Forall_forall in Hd. apply pr_ok. apply Hd. exact Hv.
+  Qed.
+End Printer.
+
+(* the repaired behaviours *)
+Lemma digest_string_roundtrip_canonical d : wf_digest d ->
+  digest_from_str (digest_to_string_with digest_elem_canonical d) = Some d.
+Proof.
+  intros [Hl Hd]. apply digest_string_roundtrip_with with (Q := canon_val); [|exact Hl|exact Hd].
+  intros v Hv. unfold digest_elem_canonical. split.
+  - apply digits_no_comma. apply u64_to_string_digits. apply Hv.
+  - apply bfe_dec_roundtrip. exact Hv.
+Qed.
+
+Lemma digest_string_roundtrip_nonneg d : wf_digest d ->
+  digest_from_str (digest_to_string_with digest_elem_nonneg d) = Some d.
+Proof.
+  intros [Hl Hd]. apply digest_string_roundtrip_with with (Q := canon_val); [|exact Hl|exact Hd].
+  intros v Hv. unfold digest_elem_nonneg. destruct (P - 256 <=? v) eqn:E.
+  - split; [apply digits_no_comma; apply u64_to_string_digits; apply Hv|apply bfe_dec_roundtrip; exact Hv].
+  - apply Z.leb_gt in E. destruct Hv as [H0 _].
+    split; [apply bfe_display_no_comma; lia|apply bfe_display_roundtrip; lia].
+Qed.
+
+(* BFieldElement's Display as the element printer: fine on elements below p - 256 ... *)
+Lemma digest_string_roundtrip_display_below d :
+  length d = 5%nat -> Forall (fun v => 0 <= v < P - 256) d ->
+  digest_from_str (digest_to_string_with bfe_display d) = Some d.
+Proof.
+  intros Hl Hd. apply digest_string_roundtrip_with with (Q := fun v => 0 <= v < P - 256); [|exact Hl|exact Hd].
+  intros v Hv. split; [apply bfe_display_no_comma; exact Hv|apply bfe_display_roundtrip; exact Hv].
+Qed.
+
+(* ... and refuted otherwise: concrete witness p-1 in position 0 (prints "-1,0,0,0,0") *)
+Lemma digest_string_display_refuted :
+  exists d, wf_digest d /\ digest_from_str (digest_to_string_with bfe_display d) = None.
+Proof.
+  exists [P - 1; 0; 0; 0; 0]. split.
+  - split; [reflexivity|]. unfold canon_val. rewrite P_val. repeat constructor; lia.
+  - vm_compute. reflexivity.
+Qed.
+
+(* whichever printer the model currently uses for Digest's Display: if it is the canonical one,
+   the round trip holds (used after the repair of Digest::fmt) *)
+Lemma digest_string_roundtrip_if_canonical :
+  (forall v, digest_elem_to_string v = digest_elem_canonical v) ->
+  forall d, wf_digest d -> digest_from_str (digest_to_string d) = Some d.
+Proof.
+  intros E d Hd. unfold digest_to_string, digest_to_string_with.
+  rewrite (map_ext _ _ E). apply digest_string_roundtrip_canonical. exact Hd.
+Qed.
+
+Lemma digest_string_roundtrip_if_nonneg :
+  (forall v, digest_elem_to_string v = digest_elem_nonneg v) ->
+  forall d, wf_digest d -> digest_from_str (digest_to_string d) = Some d.
+Proof.
+  intros E d Hd. unfold digest_to_string, digest_to_string_with.
+  rewrite (map_ext _ _ E). apply digest_string_roundtrip_nonneg. exact Hd.
+Qed.
+
+(* the model of the pinned tree *)
+Lemma digest_display_roundtrip_refuted :
+  exists d, wf_digest d /\ digest_from_str (digest_to_string d) <> Some d.
+Proof.
+  exists [P - 1; 0; 0; 0; 0]. split.
+  - split; [reflexivity|]. unfold canon_val. rewrite P_val. repeat constructor; lia.
+  - vm_compute. discriminate.
+Qed.
+
+(* strictness of FromStr for Digest *)
+Lemma digest_from_str_iff s d :
+  digest_from_str s = Some d <->
+  length (split_on 44 s) = 5%nat /\
+  Forall2 (fun f v => u64_from_str f = Some v /\ v < P) (split_on 44 s) d.
+Proof.
+  unfold digest_from_str. split.
+  - destruct (map_opt bfe_from_str (split_on 44 s)) as [bfes|] eqn:E; [|discriminate].
+    apply map_opt_some_forall2 in E.
+    destruct (Nat.eqb (length bfes) digest_len) eqn:L; [|discriminate]. apply Nat.eqb_eq in L.
+    intros H. injection H as <-. split.
+    + rewrite (Forall2_length _ _ _ E). exact L.
+    + eapply Forall2_imp; [|exact E]. intros f v Hfv. apply bfe_from_str_iff. exact Hfv.
+  - intros [L F].
+    assert (E : map_opt bfe_from_str (split_on 44 s) = Some d).
+    { apply map_opt_some_forall2. eapply Forall2_imp; [|exact F]. intros f v Hfv. apply bfe_from_str_iff. exact Hfv. }
+    rewrite E. rewrite <- (Forall2_length _ _ _ F), L. reflexivity.
+Qed.
+
+Lemma digest_from_str_wf s d : digest_from_str s = Some d -> wf_digest d.
+Proof.
+  intros H. apply digest_from_str_iff in H. destruct H as [L F]. split.
+  - rewrite <- (Forall2_length _ _ _ F). exact L.
+  - clear L. induction F as [|f v fs vs [Hf Hp] _ IH]; constructor; [|exact IH].
+    apply u64_from_str_range in Hf. split; [apply Hf|exact Hp].
+Qed.
+
+Lemma digest_from_str_wrong_count s : length (split_on 44 s) <> 5%nat -> digest_from_str s = None.
+Proof.
+  intros H. destruct (digest_from_str s) as [d|] eqn:E; [|reflexivity].
+  apply digest_from_str_iff in E. tauto.
+Qed.
+
+Lemma digest_from_str_bad_field s f :
+  In f (split_on 44 s) -> (forall v, u64_from_str f = Some v -> P <= v) -> digest_from_str s = None.
+Proof.
+  intros Hin Hbad. destruct (digest_from_str s) as [d|] eqn:E; [|reflexivity].
+  apply digest_from_str_iff in E. destruct E as [_ F]. exfalso.
+  induction F as [|f' v fs vs [Hf Hp] _ IH]; [contradiction|].
+  destruct Hin as [->|Hin]; [|exact (IH Hin)].
+  specialize (Hbad v Hf). lia.
+Qed.
+
+(* ================================================================= BigUint *)
+Lemma digest_to_big_value d : digest_to_big d = big_value d.
+Proof.
+  unfold digest_to_big. induction d as [|x d IH]; [reflexivity|].
+  cbn [rev big_value]. rewrite fold_left_app, IH. cbn [fold_left]. lia.
+Qed.
+
+Lemma big_value_bound d : Forall canon_val d -> 0 <= big_value d < P ^ Z.of_nat (length d).
+Proof.
+  induction 1 as [|x d Hx Hd IH]; cbn [big_value length].
+  - change (P ^ Z.of_nat 0) with 1. lia.
+  - rewrite Nat2Z.inj_succ, Z.pow_succ_r by lia. unfold canon_val in Hx.
+    set (Y := P ^ Z.of_nat (length d)) in *. clearbody Y. set (B := big_value d) in *. clearbody B.
+    rewrite P_val in *. lia.
+Qed.
+
+Lemma big_value_inj d1 : forall d2, length d1 = length d2 -> Forall canon_val d1 -> Forall canon_val d2 ->
+  big_value d1 = big_value d2 -> d1 = d2.
+Proof.
+  induction d1 as [|x d1 IH]; intros d2 Hl H1 H2 He; destruct d2 as [|y d2]; try discriminate; [reflexivity|].
+  inversion H1 as [|? ? Hx H1']; subst. inversion H2 as [|? ? Hy H2']; subst.
+  cbn [big_value] in He. unfold canon_val in Hx, Hy.
+  set (A := big_value d1) in *. set (B := big_value d2) in *.
+  assert (x = y /\ A = B) as [-> HAB] by (clearbody A B; rewrite P_val in *; lia).
+  f_equal. apply IH; [cbn [length] in Hl; lia|assumption|assumption|exact HAB].
+Qed.
+
+Lemma big_to_elems_spec n : forall v, 0 <= v ->
+  length (fst (big_to_elems n v)) = n /\ Forall canon_val (fst (big_to_elems n v)) /\
+  0 <= snd (big_to_elems n v) /\
+  v = big_value (fst (big_to_elems n v)) + P ^ Z.of_nat n * snd (big_to_elems n v).
+Proof.
+  induction n as [|n IH]; intros v Hv.
+  - cbn [big_to_elems fst snd length big_value]. change (P ^ Z.of_nat 0) with 1.
+    repeat split; [constructor|lia|lia].
+  - cbn [big_to_elems]. assert (Hq : 0 <= v / P) by (apply Z.div_pos; [exact Hv|rewrite P_val; lia]).
+    destruct (IH (v / P) Hq) as (Hl & Hc & Hr & He).
+    destruct (big_to_elems n (v / P)) as [l r]. cbn [fst snd] in *.
+    split; [cbn [length]; now rewrite Hl|].
+    assert (Hm : 0 <= v mod P < P) by (apply Z.mod_pos_bound; rewrite P_val; lia).
+    assert (Hnew : bfe_new_val (v mod P) = v mod P) by (unfold bfe_new_val; apply Z.mod_small; exact Hm).
+    rewrite Hnew. split; [constructor; [exact Hm|exact Hc]|]. split; [exact Hr|].
+    cbn [big_value]. rewrite Nat2Z.inj_succ, Z.pow_succ_r by lia.
+    rewrite <- Z.mul_assoc.
+    set (X := P ^ Z.of_nat n * r) in *. clearbody X. set (B := big_value l) in *. clearbody B.
+    clear Hnew Hc Hl. rewrite P_val in *. lia.
+Qed.
+
+Lemma P5_pos : 0 < P ^ 5. Proof. reflexivity. Qed.
+
+(* TryFrom<BigUint>: accepted iff below p^5, and then the result is the base-p expansion *)
+Lemma digest_big_accept v d : 0 <= v -> digest_try_from_big v = Some d ->
+  wf_digest d /\ big_value d = v /\ v < P ^ 5.
+Proof.
+  intros Hv. unfold digest_try_from_big.
+  destruct (big_to_elems_spec digest_len v Hv) as (Hl & Hc & Hr & He).
+  destruct (big_to_elems digest_len v) as [l r]. cbn [fst snd] in *.
+  destruct (r =? 0) eqn:E; [|discriminate]. apply Z.eqb_eq in E. subst r.
+  intros H. injection H as <-. split; [split; [exact Hl|exact Hc]|].
+  rewrite Z.mul_0_r, Z.add_0_r in He. split; [symmetry; exact He|].
+  pose proof (big_value_bound l Hc) as Hb. rewrite Hl in Hb. change (Z.of_nat digest_len) with 5 in Hb. lia.
+Qed.
+
+Lemma digest_big_overflow v : P ^ 5 <= v -> digest_try_from_big v = None.
+Proof.
+  intros Hv. assert (H0 : 0 <= v) by (pose proof P5_pos; lia).
+  unfold digest_try_from_big.
+  destruct (big_to_elems_spec digest_len v H0) as (Hl & Hc & Hr & He).
+  destruct (big_to_elems digest_len v) as [l r]. cbn [fst snd] in *.
+  destruct (r =? 0) eqn:E; [|reflexivity]. apply Z.eqb_eq in E. subst r. exfalso.
+  rewrite Z.mul_0_r, Z.add_0_r in He.
+  pose proof (big_value_bound l Hc) as Hb. rewrite Hl in Hb. change (Z.of_nat digest_len) with 5 in Hb. lia.
+Qed.
+
+Lemma digest_big_in_range v : 0 <= v < P ^ 5 -> exists d, digest_try_from_big v = Some d.
+Proof.
+  intros [H0 Hv]. unfold digest_try_from_big.
+  destruct (big_to_elems_spec digest_len v H0) as (Hl & Hc & Hr & He).
+  destruct (big_to_elems digest_len v) as [l r]. cbn [fst snd] in *.
+  pose proof (big_value_bound l Hc) as Hb. rewrite Hl in Hb. change (Z.of_nat digest_len) with 5 in *.
+  assert (r = 0).
+  { destruct (Z.eq_dec r 0) as [|Hn]; [assumption|]. exfalso.
+    assert (1 <= r) by lia. pose proof P5_pos.
+    assert (P ^ 5 * 1 <= P ^ 5 * r) by (apply Z.mul_le_mono_nonneg_l; lia). lia. }
+  subst r. exists l. reflexivity.
+Qed.
+
+Lemma digest_big_roundtrip d : wf_digest d -> digest_try_from_big (digest_to_big d) = Some d.
+Proof.
+  intros [Hl Hc]. rewrite digest_to_big_value.
+  pose proof (big_value_bound d Hc) as Hb. rewrite Hl in Hb. change (Z.of_nat 5) with 5 in Hb.
+  destruct (digest_big_in_range (big_value d) Hb) as [d' Hd']. rewrite Hd'. f_equal.
+  destruct (digest_big_accept _ _ (proj1 Hb) Hd') as ([Hl' Hc'] & He & _).
+  apply big_value_inj; [congruence|assumption|assumption|exact He].
+Qed.
+
+Lemma digest_big_range d : wf_digest d -> 0 <= digest_to_big d < P ^ 5.
+Proof.
+  intros [Hl Hc]. rewrite digest_to_big_value.
+  pose proof (big_value_bound d Hc) as Hb. rewrite Hl in Hb. exact Hb.
+Qed.
+
+Lemma digest_big_accept_iff v d : 0 <= v ->
+  (digest_try_from_big v = Some d <-> wf_digest d /\ digest_to_big d = v).
+Proof.
+  intros Hv. split.
+  - intros H. destruct (digest_big_accept v d Hv H) as (Hw & He & _). split; [exact Hw|].
+    rewrite digest_to_big_value. exact He.
+  - intros [Hw <-]. apply digest_big_roundtrip. exact Hw.
+Qed.
+
+(* ================================================================= order *)
+Lemma lex_cmp_app a : forall b a' b', length a = length b ->
+  lex_cmp (a ++ a') (b ++ b') = match lex_cmp a b with Eq => lex_cmp a' b' | c => c end.
+Proof.
+  induction a as [|x a IH]; intros b a' b' Hl; destruct b as [|y b]; try discriminate; [reflexivity|].
+  cbn [app lex_cmp]. destruct (x ?= y); [|reflexivity|reflexivity].
+  apply IH. cbn [length] in Hl. lia.
+Qed.
+
+Lemma lex_cmp_single x y : lex_cmp [x] [y] = (x ?= y).
+Proof. cbn [lex_cmp]. destruct (x ?= y); reflexivity. Qed.
+
+(* mixed-radix lemma: comparing the reversed digit lists lexicographically is comparing the values *)
+Lemma mixed_radix_cmp a : forall b, length a = length b -> Forall canon_val a -> Forall canon_val b ->
+  lex_cmp (rev a) (rev b) = (big_value a ?= big_value b).
+Proof.
+  induction a as [|x a IH]; intros b Hl Ha Hb; destruct b as [|y b]; try discriminate; [reflexivity|].
+  inversion Ha as [|? ? Hx Ha']; subst. inversion Hb as [|? ? Hy Hb']; subst.
+  cbn [rev big_value]. rewrite lex_cmp_app by (rewrite !rev_length; cbn [length] in Hl; lia).
+  rewrite IH by (try assumption; cbn [length] in Hl; lia).
+  rewrite lex_cmp_single. unfold canon_val in Hx, Hy.
+  set (A := big_value a). set (B := big_value b). clearbody A B.
+  destruct (Z.compare_spec A B) as [E|L|G].
+  - subst B. destruct (Z.compare_spec x y) as [E'|L'|G']; symmetry.
+    + apply Z.compare_eq_iff. lia.
+    + apply Z.compare_lt_iff. lia.
+    + apply Z.compare_gt_iff. lia.
+  - symmetry. apply Z.compare_lt_iff. rewrite P_val in *. lia.
+  - symmetry. apply Z.compare_gt_iff. rewrite P_val in *. lia.
+Qed.
+
+Lemma digest_cmp_big d1 d2 : wf_digest d1 -> wf_digest d2 ->
+  digest_cmp d1 d2 = (digest_to_big d1 ?= digest_to_big d2).
+Proof.
+  intros [L1 C1] [L2 C2]. unfold digest_cmp. rewrite !digest_to_big_value.
+  apply mixed_radix_cmp; [congruence|assumption|assumption].
+Qed.
+
+Lemma digest_cmp_eq_iff d1 d2 : wf_digest d1 -> wf_digest d2 -> (digest_cmp d1 d2 = Eq <-> d1 = d2).
+Proof.
+  intros W1 W2. rewrite digest_cmp_big by assumption. rewrite Z.compare_eq_iff, !digest_to_big_value.
+  destruct W1 as [L1 C1], W2 as [L2 C2]. split.
+  - apply big_value_inj; [congruence|assumption|assumption].
+  - intros ->. reflexivity.
+Qed.
+
+Lemma digest_reversed_involutive d : length d = 5%nat -> digest_reversed (digest_reversed d) = d.
+Proof.
+  intros H. do 5 (destruct d as [|? d]; [discriminate|]). destruct d; [reflexivity|discriminate].
+Qed.
+
+Lemma digest_reversed_rev d : length d = 5%nat -> digest_reversed d = rev d.
+Proof.
+  intros H. do 5 (destruct d as [|? d]; [discriminate|]). destruct d; [reflexivity|discriminate].
+Qed.
+
+(* ================================================================= Vec<BFieldElement> *)
+Lemma digest_vec_roundtrip d : length d = 5%nat -> digest_try_from_vec (digest_to_vec d) = Some d.
+Proof. intros H. unfold digest_try_from_vec, digest_to_vec. now rewrite H. Qed.
+
+Lemma digest_vec_wrong_length l : length l <> 5%nat -> digest_try_from_vec l = None.
+Proof.
+  intros H. unfold digest_try_from_vec. destruct (Nat.eqb (length l) digest_len) eqn:E; [|reflexivity].
+  apply Nat.eqb_eq in E. contradiction.
+Qed.
+
+(* ================================================================= serde *)
+Lemma digest_json_roundtrip d : wf_digest d -> digest_de_json (digest_ser_json d) = Some d.
+Proof. intros H. unfold digest_de_json, digest_ser_json, digest_to_hex. apply digest_hex_roundtrip. exact H. Qed.
+
+Lemma digest_json_is_hex_string d : digest_ser_json d = JStr (digest_to_hex d).
+Proof. reflexivity. Qed.
+
+Lemma digest_json_strict j d : digest_de_json j = Some d ->
+  exists s, j = JStr s /\ digest_try_from_hex s = Some d.
+Proof. destruct j; try discriminate. intros H. eexists. split; [reflexivity|exact H]. Qed.
+
+Lemma bfe_json_roundtrip v : canon_val v -> bfe_de_json (bfe_ser_json v) = Some v.
+Proof.
+  intros Hv. unfold bfe_de_json, bfe_ser_json, is_u64, bfe_new_val.
+  pose proof (canon_u64_val v Hv) as [H0 H1]. unfold canon_val in Hv.
+  destruct (0 <=? v) eqn:A; [|apply Z.leb_gt in A; lia].
+  destruct (v <? 2 ^ 64) eqn:B; [|apply Z.ltb_ge in B; lia].
+  cbn [andb]. now rewrite Z.mod_small.
+Qed.
+
+(* deserialising a u64 reduces it (it is not one of the strict parsers) *)
+Lemma bfe_json_reduces n : u64_val n -> bfe_de_json (JNum n) = Some (n mod P).
+Proof.
+  intros [H0 H1]. unfold bfe_de_json, is_u64, bfe_new_val.
+  destruct (0 <=? n) eqn:A; [|apply Z.leb_gt in A; lia].
+  destruct (n <? 2 ^ 64) eqn:B; [|apply Z.ltb_ge in B; lia]. reflexivity.
+Qed.
+
+Lemma bfe_bincode_reduces w : u64_val w -> bfe_de_bincode (le_bytes 8 w) = Some (w mod P).
+Proof.
+  intros Hw. unfold bfe_de_bincode. rewrite le_bytes_length. cbn [Nat.ltb Nat.leb].
+  rewrite <- (le_bytes_length 8 w) at 1. rewrite firstn_all.
+  rewrite from_le_bytes_le_bytes; [reflexivity|].
+  unfold u64_val in Hw. rewrite pow2_64 in Hw. change (256 ^ Z.of_nat 8) with 18446744073709551616. exact Hw.
+Qed.
+
+Lemma bfe_bincode_roundtrip v : canon_val v -> bfe_de_bincode (bfe_ser_bincode v) = Some v.
+Proof.
+  intros Hv. unfold bfe_ser_bincode. rewrite bfe_bincode_reduces by (apply canon_u64_val; exact Hv).
+  unfold canon_val in Hv. now rewrite Z.mod_small.
+Qed.
+
+Lemma bfe_bincode_short l : (length l < 8)%nat -> bfe_de_bincode l = None.
+Proof.
+  intros H. unfold bfe_de_bincode. destruct (Nat.ltb (length l) 8) eqn:E; [reflexivity|].
+  apply Nat.ltb_ge in E. lia.
+Qed.
+
+(* non human readable: the five u64 values, little endian = the 40-byte form; a stored u64 >= p is reduced *)
+Lemma digest_bincode_is_bytes d : digest_ser_bincode d = digest_to_bytes d.
+Proof. reflexivity. Qed.
+
+Lemma digest_bincode_reduces ws : length ws = 5%nat -> Forall u64_val ws ->
+  digest_de_bincode (flat_map (le_bytes 8) ws) = Some (map (fun w => w mod P) ws).
+Proof.
+  intros Hl Hw. unfold digest_de_bincode.
+  change (flat_map (le_bytes 8) ws) with (digest_to_bytes ws).
+  assert (L : length (digest_to_bytes ws) = 40%nat) by (rewrite digest_to_bytes_length, Hl; reflexivity).
+  rewrite L. cbn [Nat.ltb Nat.leb]. rewrite <- L at 1. rewrite firstn_all.
+  rewrite chunks8_digest_to_bytes, map_map. f_equal.
+  apply map_ext_in. intros w Hin. rewrite Forall_forall in Hw. specialize (Hw w Hin).
+  unfold bfe_to_bytes, bfe_new_val. rewrite from_le_bytes_le_bytes; [reflexivity|].
+  unfold u64_val in Hw. rewrite pow2_64 in Hw. change (256 ^ Z.of_nat 8) with 18446744073709551616. exact Hw.
+Qed.
+
+Lemma digest_bincode_roundtrip d : wf_digest d -> digest_de_bincode (digest_ser_bincode d) = Some d.
+Proof.
+  intros [Hl Hc]. unfold digest_ser_bincode, bfe_ser_bincode.
+  rewrite digest_bincode_reduces; [|exact Hl|eapply Forall_impl; [|exact Hc]; intros a Ha; apply canon_u64_val; exact Ha].
+  f_equal. rewrite <- (map_id d) at 2. apply map_ext_in. intros v Hin.
+  rewrite Forall_forall in Hc. specialize (Hc v Hin). unfold canon_val in Hc. now rewrite Z.mod_small.
+Qed.
+
+Lemma digest_bincode_short l : (length l < 40)%nat -> digest_de_bincode l = None.
+Proof.
+  intros H. unfold digest_de_bincode. destruct (Nat.ltb (length l) 40) eqn:E; [reflexivity|].
+  apply Nat.ltb_ge in E. lia.
+Qed.
+
+(* ================================================================= XFieldElement <-> Digest *)
+Lemma xfe_digest_roundtrip x : xfe_try_from_digest (digest_from_xfe x) = Some x.
+Proof. destruct x as [[c0 c1] c2]. reflexivity. Qed.
+
+(* the embedding is invertible exactly on digests whose last two elements are zero *)
+Lemma xfe_digest_iff d x : length d = 5%nat -> (xfe_try_from_digest d = Some x <-> d = digest_from_xfe x).
+Proof.
+  intros H. do 5 (destruct d as [|? d]; [discriminate|]). destruct d; [|discriminate].
+  destruct x as [[c0 c1] c2]. unfold xfe_try_from_digest, digest_from_xfe. split.
+  - destruct (z2 =? 0) eqn:A; [|discriminate]. destruct (z3 =? 0) eqn:B; [|discriminate].
+    apply Z.eqb_eq in A, B. cbn [negb orb]. intros E. injection E as -> -> ->. subst. reflexivity.
+  - intros E. injection E as -> -> -> -> ->. reflexivity.
+Qed.
+
+Lemma xfe_digest_defined_iff d : length d = 5%nat ->
+  ((exists x, xfe_try_from_digest d = Some x) <-> nth 3 d 0 = 0 /\ nth 4 d 0 = 0).
+Proof.
+  intros H. do 5 (destruct d as [|? d]; [discriminate|]). destruct d; [|discriminate].
+  cbn [nth]. unfold xfe_try_from_digest. split.
+  - intros [x Hx]. destruct (z2 =? 0) eqn:A; [|discriminate]. destruct (z3 =? 0) eqn:B; [|discriminate].
+    apply Z.eqb_eq in A, B. split; assumption.
+  - intros [-> ->]. eexists. reflexivity.
+Qed.
+
+(* ================================================================= small facts used by the statements *)
+Lemma digest_slice_array_agree l : length l = 40%nat -> digest_try_from_slice l = digest_try_from_array l.
+Proof. intros H. unfold digest_try_from_slice. now rewrite H. Qed.
+
+Lemma bfe_slice_array_agree l : length l = 8%nat -> bfe_try_from_slice l = bfe_try_from_array l.
+Proof. intros H. unfold bfe_try_from_slice. now rewrite H. Qed.
+
+Lemma digest_to_bytes_40 d : wf_digest d -> length (digest_to_bytes d) = 40%nat /\ byte_list (digest_to_bytes d).
+Proof. intros [Hl _]. split; [rewrite digest_to_bytes_length, Hl; reflexivity|apply digest_to_bytes_bytes]. Qed.
+
+Lemma digest_to_hex_shape d : wf_digest d ->
+  length (digest_to_hex d) = 80%nat /\ Forall lower_hex_char (digest_to_hex d).
+Proof.
+  intros Hd. destruct (digest_to_bytes_40 d Hd) as [L B]. unfold digest_to_hex. split.
+  - rewrite hex_encode_length, L. reflexivity.
+  - apply hex_encode_lower. exact B.
+Qed.
+
+Lemma digest_hex_roundtrip_both d : wf_digest d ->
+  digest_try_from_hex (digest_to_hex d) = Some d /\ digest_try_from_hex (digest_to_hex_upper d) = Some d.
+Proof. intros H. split; apply digest_hex_roundtrip; exact H. Qed.
+
+Lemma bfe_display_parse v :
+  (0 <= v < P - 256 -> bfe_from_str (bfe_display v) = Some v) /\
+  (P - 256 <= v -> bfe_from_str (bfe_display v) = None).
+Proof. split; [apply bfe_display_roundtrip|apply bfe_display_negative]. Qed.
+
+(* ================================================================= examples: the hypotheses are satisfiable,
+   and the boundary cases of the property evaluated in the model *)
+Definition ex_d : list Z := [P - 1; 0; 4294967296; 257; P - 257].
+Example ex_wf : wf_digest ex_d.
+Proof. split; [reflexivity|]. unfold ex_d, canon_val. rewrite P_val. repeat (apply Forall_cons; [lia|]). constructor. Qed.
+Example ex_bytes : digest_try_from_slice (digest_to_bytes ex_d) = Some ex_d. Proof. vm_compute. reflexivity. Qed.
+Example ex_hex : digest_try_from_hex (digest_to_hex_upper ex_d) = Some ex_d. Proof. vm_compute. reflexivity. Qed.
+Example ex_big : digest_try_from_big (digest_to_big ex_d) = Some ex_d. Proof. vm_compute. reflexivity. Qed.
+Example ex_big_max : digest_try_from_big (P ^ 5 - 1) = Some [P - 1; P - 1; P - 1; P - 1; P - 1]. Proof. vm_compute. reflexivity. Qed.
+Example ex_big_over : digest_try_from_big (P ^ 5) = None. Proof. vm_compute. reflexivity. Qed.
+Example ex_bytes_p : (* element 2 equal to p *)
+  digest_try_from_slice (digest_to_bytes [1; 2] ++ le_bytes 8 P ++ digest_to_bytes [4; 5]) = None.
+Proof. vm_compute. reflexivity. Qed.
+Example ex_bincode_p : (* the same 40 bytes through bincode: reduced, not rejected *)
+  digest_de_bincode (digest_to_bytes [1; 2] ++ le_bytes 8 P ++ digest_to_bytes [4; 5]) = Some [1; 2; 0; 4; 5].
+Proof. vm_compute. reflexivity. Qed.
+Example ex_str_today : (* "-1,0,0,0,0" *)
+  digest_to_string_with bfe_display [P - 1; 0; 0; 0; 0] = [45; 49; 44; 48; 44; 48; 44; 48; 44; 48].
+Proof. vm_compute. reflexivity. Qed.
+Example ex_str_plus_zeros : (* "+1,002,3,4,18446744069414584320" *)
+  digest_from_str ([43; 49; 44; 48; 48; 50; 44; 51; 44; 52; 44] ++ u64_to_string (P - 1)) = Some [1; 2; 3; 4; P - 1].
+Proof. vm_compute. reflexivity. Qed.
+Example ex_str_p : digest_from_str ([49; 44; 50; 44; 51; 44; 52; 44] ++ u64_to_string P) = None.
+Proof. vm_compute. reflexivity. Qed.
+Example ex_str_space : digest_from_str [49; 44; 32; 50; 44; 51; 44; 52; 44; 53] = None.
+Proof. vm_compute. reflexivity. Qed.
+Example ex_cmp_tie : (* tie in the most significant element, decided by element 3 *)
+  digest_cmp [P - 1; P - 1; P - 1; 0; 7] [0; 0; 0; 1; 7] = Lt.
+Proof. vm_compute. reflexivity. Qed.
+Example ex_xfe : xfe_try_from_digest [1; 2; 3; 0; 1] = None /\ xfe_try_from_digest [1; 2; 3; 0; 0] = Some (1, 2, 3).
+Proof. split; reflexivity. Qed.
+Example ex_below_cutoff : Forall (fun v => 0 <= v < P - 256) [P - 257; 0; 256; 257; 1].
+Proof. rewrite P_val. repeat (apply Forall_cons; [cbv beta; lia|]). constructor. Qed.
